@@ -139,9 +139,87 @@ def index_corpus():
     return C
 
 
+def contract_corpus():
+    """choice-domain, subsumption, limitsize programs (judged by their declarative contracts)"""
+    C = []
+    a = C.append
+    O3 = ("fwd", "rev", "rot")
+    a(P("choice_single_key", E2 + ".decl c(x:number,y:number) choice-domain x\n.output c\nc(x,y) :- e(x,y).\n", "choice", judge="choice", orders=O3, m=3))
+    a(P("choice_two_keys", E2 + ".decl c(x:number,y:number) choice-domain x, y\n.output c\nc(x,y) :- e(x,y).\n", "choice", judge="choice", orders=O3, m=3))
+    a(P("choice_pair_key", ".decl e3(x:number,y:number,z:number)\n.input e3\n.decl c(x:number,y:number,z:number) choice-domain (x,y)\n.output c\nc(x,y,z) :- e3(x,y,z).\n", "choice", judge="choice", orders=O3))
+    a(P("choice_two_rules", E2 + F2 + ".decl c(x:number,y:number) choice-domain x\n.output c\nc(x,y) :- e(x,y).\nc(x,y) :- f(y,x).\n", "choice", judge="choice", orders=O3))
+    a(P("choice_recursive", E2 + V1 + ".decl c(x:number,y:number) choice-domain y\n.output c\nc(x,x) :- v(x).\nc(x,z) :- c(x,y), e(y,z).\n", "choice", judge="choice", orders=O3))
+    a(P("choice_recursive_swap", E2 + ".decl c(x:number,y:number) choice-domain x\n.output c\nc(x,y) :- e(x,y).\nc(y,x) :- c(x,y), e(y,_).\n", "choice", judge="choice", orders=O3))
+    a(P("choice_spanning_tree", E2 + V1 + ".decl st(x:number,y:number) choice-domain y\n.output st\nst(x,x) :- v(x), x = 1.\nst(x,y) :- st(_,x), e(x,y).\n", "choice", judge="choice", orders=O3))
+    # subsumption (min-cost shapes): judge_arg = monotone-cost program
+    D2 = ".decl e(x:number,d:number)\n.input e\n"
+    a(P("subsume_min_nonrec", D2 + ".decl s(x:number,d:number) btree_delete\n.output s\ns(x,d) :- e(x,d).\ns(x,d1) <= s(x,d2) :- d2 < d1.\n", "subsume", judge="subsume", judge_arg=1, mode="L", n=3))
+    a(P("subsume_max_nonrec", D2 + ".decl s(x:number,d:number) btree_delete\n.output s\ns(x,d) :- e(x,d).\ns(x,d1) <= s(x,d2) :- d1 < d2.\n", "subsume", judge="subsume", judge_arg=1, mode="L", n=3))
+    a(P("subsume_min_umode", D2 + ".decl s(x:number,d:number) btree_delete\n.output s\ns(x,d) :- e(x,d).\ns(x,d1) <= s(x,d2) :- d2 < d1.\n", "subsume", judge="subsume", judge_arg=1, m=3))
+    a(P("subsume_shortest_path", E2 + ".decl src(x:number)\n.input src\n.decl s(x:number,d:number) btree_delete\n.output s\ns(x,0) :- src(x).\ns(y,d+1) :- s(x,d), e(x,y), d < 3.\ns(x,d1) <= s(x,d2) :- d2 < d1.\n", "subsume", judge="subsume", judge_arg=1, m=2, max_loop=12))
+    a(P("subsume_pairs_lex", ".decl e3(x:number,a:number,b:number)\n.input e3\n.decl s(x:number,a:number,b:number) btree_delete\n.output s\ns(x,a,b) :- e3(x,a,b).\ns(x,a1,b1) <= s(x,a2,b2) :- a2 <= a1, b2 <= b1.\n", "subsume", judge="subsume", judge_arg=0, m=2))
+    # limitsize
+    a(P("limit_tc_1", E2 + ".decl l(x:number,y:number)\n.limitsize l(n=1)\n.output l\nl(x,y) :- e(x,y).\nl(x,z) :- l(x,y), e(y,z).\n", "limit", judge="limit"))
+    a(P("limit_tc_2", E2 + ".decl l(x:number,y:number)\n.limitsize l(n=2)\n.output l\nl(x,y) :- e(x,y).\nl(x,z) :- l(x,y), e(y,z).\n", "limit", judge="limit", m=3))
+    a(P("limit_tc_3", E2 + ".decl l(x:number,y:number)\n.limitsize l(n=3)\n.output l\nl(x,y) :- e(x,y).\nl(x,z) :- l(x,y), l(y,z).\n", "limit", judge="limit", m=3))
+    a(P("limit_unary", E2 + V1 + ".decl r(x:number)\n.limitsize r(n=2)\n.output r\nr(x) :- v(x).\nr(y) :- r(x), e(x,y).\n", "limit", judge="limit", m=3))
+    a(P("limit_with_downstream", E2 + V1 + ".decl r(x:number)\n.decl o(x:number)\n.limitsize r(n=2)\n.output r\nr(x) :- v(x).\nr(y) :- r(x), e(x,y).\n", "limit", judge="limit"))
+    return C
+
+
+def syntax_corpus():
+    """print / reparse shapes (C15): qualifiers, plans, precedence, negative constants, records, symbols"""
+    C = []
+    a = C.append
+    a(P("syn_precedence", E2 + ".decl p(x:number,y:number)\n.output p\np((x+y)*2, x-(y-1)) :- e(x,y).\np(x*2+y, -x) :- e(x,y), x != -1.\np(x/(y+100), x%7) :- e(x,y), y > 0, y < 50.\n", "syntax", mode="L", n=2))
+    a(P("syn_bitops", E2 + ".decl p(x:number,y:number)\n.output p\np(x band (y bor 1), (x bxor y) bshl 1) :- e(x,y).\np(bnot x, lnot y) :- e(x,y).\np(x land y, x lor (y lxor 1)) :- e(x,y).\n", "syntax", mode="L", n=2))
+    a(P("syn_neg_consts", E2 + ".decl p(x:number)\n.output p\np(x) :- e(x,-3).\np(-7) :- e(-1,_).\np(x) :- e(x,y), y < -2147483647.\n", "syntax", m=2))
+    a(P("syn_plan_qualifiers", E2 + ".decl h(x:number,y:number) inline\n.decl p(x:number,y:number) btree\n.output p\nh(x,y) :- e(x,y), x != y.\np(x,y) :- h(x,y).\np(x,z) :- p(x,y), p(y,z). .plan 0:(2,1), 1:(1,2)\n", "syntax", m=2))
+    a(P("syn_disjunction_neg", E2 + F2 + V1 + ".decl p(x:number)\n.output p\np(x) :- v(x), (e(x,_) ; f(_,x), !e(x,x)), x != 0.\n", "syntax", m=2))
+    a(P("syn_aggregates", E2 + V1 + ".decl c(x:number,n:number)\n.output c\nc(x,n) :- v(x), n = count : { e(x,_) }.\nc(x,n+1) :- v(x), n = sum y : { e(x,y), y > 1 }, n > 0.\nc(x,n) :- v(x), n = min y : { e(x,y) }.\n", "syntax", m=2))
+    a(P("syn_records", E2 + ".type Pr = [a:number, b:number]\n.decl r(p:Pr)\n.decl o(x:number,y:number)\n.output o\nr([x,y]) :- e(x,y).\nr(nil) :- e(1,1).\no(y,x) :- r([x,y]).\n", "syntax", m=2))
+    a(P("syn_symbols", ".decl e(x:symbol,y:symbol)\n.input e\n.decl p(x:symbol,y:symbol)\n.output p\np(x,y) :- e(x,y), x != y.\np(x,\"k\") :- e(x,\"a b\").\n", "syntax", m=2))
+    a(P("syn_multi_head_fact", E2 + ".decl p(x:number)\n.decl q(x:number)\n.output p\n.output q\np(1).\nq(2).\np(x), q(x) :- e(x,x).\n", "syntax", m=2))
+    a(P("syn_unsigned_float", ".decl e(x:unsigned,y:float)\n.input e\n.decl p(x:unsigned,y:float)\n.output p\np(x+1,y) :- e(x,y), x < 10, y >= 1.5.\np(itou(ftoi(y)),y) :- e(x,y), y > 0.0, y < 100.0, x = 3.\n", "syntax", mode="L", n=1, tiers=("thorough",)))
+    return C
+
+
+def component_corpus():
+    """(wrapped program, hand-flattened twin) pairs for C16"""
+    C = []
+
+    def PC(name, wrapped, flat, **kw):
+        c = P(name, wrapped, "component", ref_text=flat, **kw)
+        C.append(c)
+    G = ".decl edge(x:number,y:number)\n.decl reach(x:number,y:number)\nreach(x,y) :- edge(x,y).\nreach(x,z) :- reach(x,y), edge(y,z).\n"
+
+    def flatG(pfx):
+        return G.replace("edge(", pfx + "edge(").replace("reach(", pfx + "reach(")
+    PC("comp_simple", E2 + ".comp Graph {\n" + G + "}\n.init g = Graph\ng.edge(x,y) :- e(x,y).\n.decl o(x:number,y:number)\n.output o\no(x,y) :- g.reach(x,y).\n",
+       E2 + flatG("g.") + "g.edge(x,y) :- e(x,y).\n.decl o(x:number,y:number)\n.output o\no(x,y) :- g.reach(x,y).\n")
+    PC("comp_two_instances", E2 + F2 + ".comp Graph {\n" + G + "}\n.init g = Graph\n.init h = Graph\ng.edge(x,y) :- e(x,y).\nh.edge(x,y) :- f(x,y).\nh.edge(x,y) :- g.reach(y,x).\n.decl o(x:number,y:number)\n.output o\no(x,y) :- h.reach(x,y), !g.reach(x,y).\n",
+       E2 + F2 + flatG("g.") + flatG("h.") + "g.edge(x,y) :- e(x,y).\nh.edge(x,y) :- f(x,y).\nh.edge(x,y) :- g.reach(y,x).\n.decl o(x:number,y:number)\n.output o\no(x,y) :- h.reach(x,y), !g.reach(x,y).\n")
+    PC("comp_type_param", E2 + ".comp Box<T> {\n.decl v(x:T)\n.decl w(x:T)\nw(x) :- v(x), x != 0.\n}\n.init b = Box<number>\nb.v(x) :- e(x,_).\n.decl o(x:number)\n.output o\no(x) :- b.w(x).\n",
+       E2 + ".decl b.v(x:number)\n.decl b.w(x:number)\nb.w(x) :- b.v(x), x != 0.\nb.v(x) :- e(x,_).\n.decl o(x:number)\n.output o\no(x) :- b.w(x).\n")
+    PC("comp_inherit", E2 + ".comp A {\n.decl r(x:number)\n.decl s(x:number)\ns(x) :- r(x), x > 0.\n}\n.comp B : A {\n.decl t(x:number)\nt(x) :- s(x), !r(3).\n}\n.init b = B\nb.r(x) :- e(x,_).\n.decl o(x:number)\n.output o\no(x) :- b.t(x).\n",
+       E2 + ".decl b.r(x:number)\n.decl b.s(x:number)\n.decl b.t(x:number)\nb.s(x) :- b.r(x), x > 0.\nb.t(x) :- b.s(x), !b.r(3).\nb.r(x) :- e(x,_).\n.decl o(x:number)\n.output o\no(x) :- b.t(x).\n")
+    PC("comp_override", E2 + ".comp A {\n.decl r(x:number) overridable\n.decl s(x:number)\nr(x) :- e(x,_).\ns(x) :- r(x).\n}\n.comp B : A {\n.override r\nr(y) :- e(_,y).\n}\n.init a = A\n.init b = B\n.decl o(x:number)\n.decl o2(x:number)\n.output o\n.output o2\no(x) :- b.s(x).\no2(x) :- a.s(x).\n",
+       E2 + ".decl a.r(x:number)\n.decl a.s(x:number)\na.r(x) :- e(x,_).\na.s(x) :- a.r(x).\n.decl b.r(x:number)\n.decl b.s(x:number)\nb.r(y) :- e(_,y).\nb.s(x) :- b.r(x).\n.decl o(x:number)\n.decl o2(x:number)\n.output o\n.output o2\no(x) :- b.s(x).\no2(x) :- a.s(x).\n")
+    PC("comp_nested_init", E2 + ".comp Inner {\n.decl p(x:number)\n.decl q(x:number)\nq(x) :- p(x), x != 1.\n}\n.comp Outer {\n.init in1 = Inner\n.init in2 = Inner\n.decl r(x:number)\nin1.p(x) :- r(x).\nin2.p(x) :- in1.q(x).\n}\n.init o1 = Outer\no1.r(x) :- e(x,_).\n.decl o(x:number)\n.output o\no(x) :- o1.in2.q(x).\n",
+       E2 + ".decl o1.in1.p(x:number)\n.decl o1.in1.q(x:number)\n.decl o1.in2.p(x:number)\n.decl o1.in2.q(x:number)\n.decl o1.r(x:number)\no1.in1.q(x) :- o1.in1.p(x), x != 1.\no1.in2.q(x) :- o1.in2.p(x), x != 1.\no1.in1.p(x) :- o1.r(x).\no1.in2.p(x) :- o1.in1.q(x).\no1.r(x) :- e(x,_).\n.decl o(x:number)\n.output o\no(x) :- o1.in2.q(x).\n")
+    PC("comp_param_component", E2 + ".comp Imp1 {\n.decl f(x:number,y:number)\nf(x,y) :- e(x,y).\n}\n.comp Imp2 {\n.decl f(x:number,y:number)\nf(x,y) :- e(y,x).\n}\n.comp User<I> {\n.init impl = I\n.decl g(x:number)\ng(x) :- impl.f(x,x).\ng(y) :- g(x), impl.f(x,y).\n}\n.init u1 = User<Imp1>\n.init u2 = User<Imp2>\n.decl o(x:number)\n.output o\no(x) :- u1.g(x), !u2.g(x).\n",
+       E2 + ".decl u1.impl.f(x:number,y:number)\nu1.impl.f(x,y) :- e(x,y).\n.decl u1.g(x:number)\nu1.g(x) :- u1.impl.f(x,x).\nu1.g(y) :- u1.g(x), u1.impl.f(x,y).\n.decl u2.impl.f(x:number,y:number)\nu2.impl.f(x,y) :- e(y,x).\n.decl u2.g(x:number)\nu2.g(x) :- u2.impl.f(x,x).\nu2.g(y) :- u2.g(x), u2.impl.f(x,y).\n.decl o(x:number)\n.output o\no(x) :- u1.g(x), !u2.g(x).\n")
+    PC("comp_output_inside", E2 + ".comp C {\n.decl p(x:number,y:number)\n.output p\np(x,y) :- e(x,y), x < y.\n}\n.init c1 = C\n",
+       E2 + ".decl c1.p(x:number,y:number)\n.output c1.p\nc1.p(x,y) :- e(x,y), x < y.\n")
+    PC("comp_inherit_param_chain", E2 + ".comp Base<T> {\n.decl b(x:T)\n.decl d(x:T)\nd(x) :- b(x).\n}\n.comp Mid<T> : Base<T> {\n.decl m(x:T,y:T)\nm(x,y) :- d(x), d(y), x < y.\n}\n.comp Top : Mid<number> {\nb(x) :- e(x,_).\n}\n.init t = Top\n.decl o(x:number,y:number)\n.output o\no(x,y) :- t.m(x,y).\n",
+       E2 + ".decl t.b(x:number)\n.decl t.d(x:number)\n.decl t.m(x:number,y:number)\nt.d(x) :- t.b(x).\nt.m(x,y) :- t.d(x), t.d(y), x < y.\nt.b(x) :- e(x,_).\n.decl o(x:number,y:number)\n.output o\no(x,y) :- t.m(x,y).\n")
+    return C
+
+
 def corpus(tier, extra=()):
     cs = [c for c in base_corpus() if tier in c.tiers]
-    fams = {"opt": opt_corpus, "magic": opt_corpus, "index": index_corpus}
+    fams = {"opt": opt_corpus, "magic": opt_corpus, "index": index_corpus, "choice": contract_corpus, "subsume": contract_corpus,
+            "limit": contract_corpus, "syntax": syntax_corpus, "component": component_corpus}
     done = set()
     for e in extra:
         f = fams.get(e)
